@@ -19,9 +19,25 @@ import time
 import z3
 
 
+_DEFS: dict = {}  # name of a defined spec function -> its definitional axiom  forall xs. f(xs) == body
+
+
+def _collect_defs(axioms):
+    _DEFS.clear()
+    for a in axioms:
+        if z3.is_quantifier(a) and a.is_forall() and z3.is_eq(a.body()):
+            lhs = a.body().arg(0)
+            if z3.is_app(lhs) and lhs.decl().name().startswith("def:") and lhs.sort() == z3.BoolSort() \
+                    and all(z3.is_var(c) for c in lhs.children()):
+                # only when the arguments are exactly the bound variables in order (so substitution is direct)
+                n = lhs.num_args()
+                if [z3.get_var_index(c) for c in lhs.children()] == list(range(n - 1, -1, -1)):
+                    _DEFS[lhs.decl().name()] = a
+
+
 def split_goal(goal, depth=0, ext=False):
     """-> list of (hyps, subgoal)"""
-    if depth > 10:
+    if depth > 16:
         return [([], goal)]
     if z3.is_and(goal):
         out = []
@@ -40,6 +56,13 @@ def split_goal(goal, depth=0, ext=False):
         c, a, b = goal.children()
         return [([c] + h, g) for h, g in split_goal(a, depth + 1, ext)] + \
                [([z3.Not(c)] + h, g) for h, g in split_goal(b, depth + 1, ext)]
+    if ext and z3.is_app(goal) and goal.decl().name() in _DEFS and depth <= 13:
+        # a defined predicate as a goal: unfold its definitional axiom once (equivalent) and keep splitting
+        q = _DEFS[goal.decl().name()]
+        lhs, rhs = q.body().children()
+        if lhs.num_args() == goal.num_args():
+            inst = z3.substitute_vars(rhs, *reversed(goal.children()))
+            return split_goal(inst, depth + 1, ext)
     if z3.is_eq(goal):
         a, b = goal.children()
         if a.sort() == z3.BoolSort():
@@ -200,6 +223,7 @@ def discharge_all(obligations, axioms, timeout_ms=10000, seed=0, jobs=8, single_
     """-> {oid: result dict}.  single_attempt: (kind, clause) pairs that are recorded known findings - they are
     expected to fail, so only the first (cheap) round is spent on them."""
     results = {}
+    _collect_defs(axioms)
     first_ms = min(timeout_ms, 2500)
     t1 = [(ob.oid, (lambda ob=ob: _check_inproc(ob.pc, ob.goal, axioms, first_ms, seed, False)),
            WALL_SLACK * first_ms / 1000.0) for ob in obligations]
@@ -217,12 +241,11 @@ def discharge_all(obligations, axioms, timeout_ms=10000, seed=0, jobs=8, single_
     for ob in obligations:
         if z3.is_false(ob.goal) and results[ob.oid]["status"] != "proved":
             results[ob.oid]["failed_part"] = "false  (the path reaching this point is not refuted)"
-    for rnd, ext in ((2, False), (3, True)):
-        if not left:
-            break
+    def one_round(obs, rnd, ext):
+        """-> obligations still unproved that may profit from another round"""
         tasks, meta = [], {}
         active = []
-        for ob in left:
+        for ob in obs:
             parts = getattr(ob, "_parts", None)
             if parts is None:
                 parts = split_goal(ob.goal, ext=False)
@@ -272,7 +295,24 @@ def discharge_all(obligations, axioms, timeout_ms=10000, seed=0, jobs=8, single_
             ob._parts = [(hyps, g) for _, _, _, hyps, g in failed]
             if not ext and worst != "error":
                 still.append(ob)
-        left = still
+        return still
+
+    left = one_round(left, 2, False) if left else []
+    # last round, in chunks: when a whole chunk fails again the function is failing en masse (a broken body, not a
+    # hard proof) and the remaining obligations keep their round-2 verdict - the function is reported as failed
+    # either way, only sooner
+    CHUNK = 8
+    n_failed = 0
+    for i in range(0, len(left), CHUNK):
+        chunk = left[i:i + CHUNK]
+        one_round(chunk, 3, True)
+        bad = [ob for ob in chunk if results[ob.oid]["status"] != "proved"]
+        n_failed += len(bad)
+        if len(bad) == len(chunk) and n_failed >= CHUNK:
+            for ob in left[i + CHUNK:]:
+                results[ob.oid]["reason"] = (results[ob.oid].get("reason") or "") + \
+                    " (last round skipped: %d obligations of this function already failed it)" % n_failed
+            break
     return results
 
 
